@@ -701,7 +701,6 @@ func trunc2(s string, n int) string {
 	return s
 }
 
-
 var (
 	reStackAddr = regexp.MustCompile(`0x[0-9a-f]+`)
 	reStackGoID = regexp.MustCompile(`goroutine [0-9]+`)
